@@ -64,10 +64,12 @@ pub fn sfs_fifo(ctx: &Ctx, args: &[&str], bytes: &[u8], first: usize, fifo: &str
     let writer = std::thread::spawn(move || {
         let _ = w.write_all(&data[..first]);
         let _ = w.flush();
-        std::thread::sleep(std::time::Duration::from_millis(60));
-        let _ = w.write_all(&data[first..]);
+        if first < data.len() {
+            std::thread::sleep(std::time::Duration::from_millis(60));
+            let _ = w.write_all(&data[first..]);
+        }
         // give the reader time to have the pipe open before our (last other) handle goes away
-        std::thread::sleep(std::time::Duration::from_millis(150));
+        std::thread::sleep(std::time::Duration::from_millis(80));
         drop(w);
     });
     let out = child.wait_with_output().ok()?;
